@@ -200,4 +200,14 @@ def specQuartets (rank : String → Nat) (specific : Bool) (t : T) : List Quarte
 def specIndexQuartets (qs : List Quartet) : List (Quartet × Quartet) :=
   qs.foldl (fun a q => Assoc.put Quartet.hashEquals q q a) []
 
+/-! ### `gotree stats splits` / `Edge.DumpBitSet` -/
+
+/-- the first line of `gotree stats splits`: the tips by DEcreasing rank (the last sorted name first) -/
+def specSplitsHeader (tips : List String) : String := "Tree\t" ++ "|".intercalate (sortNames tips).reverse
+
+/-- what the dump of a branch must show: one digit per tip under the names of the header ('1' = the tip is below the
+    branch), then a dot -/
+def specDumpLine (tips below : List String) : String :=
+  String.ofList (((sortNames tips).reverse.map fun x => if below.contains x then '1' else '0') ++ ['.'])
+
 end Gotree.C04
